@@ -379,12 +379,15 @@ def _a_nd(coef, c, t, x, sigma, tenors):
     return sig * x.reshape(-1, 1)
 
 
-def _euler_nd(x0, coef, c, mu, times, dW, dL, sigma, tenors):
-    """X_{i+1} = X_i + a(t_i, X_i) (mu dt_i + dW_i + dL_i); dW, dL: (d, n-1); returns (m, n)"""
+def _euler_nd(x0, coef, c, mu, times, dW, dL, sigma, tenors, sde_drift=None):
+    """X_{i+1} = X_i + (sde drift + a(t_i, X_i) mu) dt_i + a(t_i, X_i) (dW_i + dL_i); dW, dL: (d, n-1); returns (m, n)"""
     x = np.array(x0, dtype=float)
     xs = [x.copy()]
     for i in range(len(times) - 1):
-        a = _a_nd(coef, c, times[i], x, sigma, tenors)
+        a = _a_nd("libor" if coef == "libormodel" else coef, c, times[i], x, sigma, tenors)
+        if sde_drift is not None:
+            # the model's own SDE drift, evaluated at THIS component's own state at the left end point
+            x = x + np.asarray(sde_drift(times[i], x.reshape(-1, 1)), dtype=float).reshape(-1) * (times[i + 1] - times[i])
         x = x + a @ (mu * (times[i + 1] - times[i]) + dW[:, i] + dL[:, i])
         xs.append(x.copy())
     return np.array(xs).T
@@ -394,8 +397,14 @@ def generate_nd(r, seed):
     from . import c02nd
 
     proc = c02nd.generate_process(r)
-    coef = r.choice(["const", "diag", "libor", "libor"])
-    m = 2 if coef == "diag" else r.choice([1, 2, 3])
+    coef = r.choice(["const", "diag", "libor", "libor", "libormodel", "libormodel"])
+    if coef == "libormodel" and (proc["copula"]["kind"] == "independent"
+                                 or all(x in ("cgmy02", "vg") for x in proc["margins"][:2])):
+        # the Libor model's drift needs the copula's mixed derivative (not offered by the independent copula), and its
+        # cross integral of x*y over the truncation square is NaN (after ~30 s of dblquad) when both margins have
+        # infinite activity - a numerical-integration matter outside the scheme clause (DESIGN section 14, observations)
+        coef = "libor"
+    m = 2 if coef == "diag" else (r.choice([2, 3]) if coef == "libormodel" else r.choice([1, 2, 3]))
     return {"world_seed": seed, "nd": True, "margins": proc["margins"][:2], "copula": proc["copula"], "method": proc["method"],
             "h": r.choice([0.1, 0.05]), "ngrid": r.choice([4, 6]), "coef": coef, "m": m, "c": r.choice([1.0, 0.5, -2.0]),
             "tenor_fracs": sorted(r.sample([0.15, 0.3, 0.45, 0.6, 0.75, 0.9, 1.2, 1.5], 4)),
@@ -424,7 +433,7 @@ def execute_nd(wd, sc):
     V, errors = [], []
     wd.c16 = {"driver": [], "drifts": {}}
     coef, c, T, m = sc["coef"], sc["c"], sc["maturity"], sc["m"]
-    cls = "copula-driver|a=" + {"const": "constant", "diag": "diag(x)", "libor": "sigma(t)*x"}[coef]
+    cls = "copula-driver|a=" + {"const": "constant", "diag": "diag(x)", "libor": "sigma(t)*x", "libormodel": "sigma(t)*x+libor-drift"}[coef]
 
     def add(sig, detail):
         if not any(v["sig"] == sig for v in V):
@@ -448,7 +457,14 @@ def execute_nd(wd, sc):
             a = DiagX(2)
         else:
             a = LiborSDEFunction(sigma=sigma.copy(), tenors=tenors)
-        model = LevyDrivenSDEModel(driver=driver, x0=x0.copy(), a=a)
+        if coef == "libormodel":
+            from rpylib.model.levydrivensde.levylibormodel import LevyLiborModel
+
+            tenors[-1] = max(tenors[-1], 1.25 * T)  # the model discounts up to its last tenor only
+            model = LevyLiborModel(libor_rates=x0.copy(), tenors=[float(t_) for t_ in tenors], sigma=sigma.copy(), driver=driver)
+            wd.probes["c16.nd_state_dependent_sde_drift"] += 1
+        else:
+            model = LevyDrivenSDEModel(driver=driver, x0=x0.copy(), a=a)
         grid = CTMCUniformGrid.create_from_fixed_nb_of_points(h=sc["h"], nb_of_points=sc["ngrid"], dimension=2)
         method = SamplingMethod[c02nd.ND_METHODS[sc["method"]]]
         product = Product(payoff_underlying=Spot(), payoff=PayoffOnTheFly(lambda u: float(np.sum(u))), maturity=T)
@@ -499,7 +515,8 @@ def execute_nd(wd, sc):
             if d[0] == "single":
                 mu = d[2]
                 level0_drift = mu
-                ref = _euler_nd(x0, coef, c, mu, times, np.diff(dp["diff"], axis=-1), np.diff(dp["jump"], axis=-1), sigma, tenors)
+                sdd = wd.c16.get("sde_drift") if coef == "libormodel" else None
+                ref = _euler_nd(x0, coef, c, mu, times, np.diff(dp["diff"], axis=-1), np.diff(dp["jump"], axis=-1), sigma, tenors, sdd)
                 got = x0.reshape(-1, 1) + (s["drift"] + s["diff"] + s["jump"])
                 wd.probes["c16.nd_single_path_checked"] += 1
                 scale = 1.0 + np.max(np.abs(ref))
@@ -515,7 +532,8 @@ def execute_nd(wd, sc):
                     if mu is None:
                         wd.probes["c16.coarse_drift_unknown"] += 1
                         continue
-                    ref = _euler_nd(x0, coef, c, mu, times, np.diff(dp["diff"][ci], axis=-1), np.diff(dp["jump"][ci], axis=-1), sigma, tenors)
+                    sdd = wd.c16.get("sde_drift") if coef == "libormodel" else None
+                    ref = _euler_nd(x0, coef, c, mu, times, np.diff(dp["diff"][ci], axis=-1), np.diff(dp["jump"][ci], axis=-1), sigma, tenors, sdd)
                     got = x0.reshape(-1, 1) + np.asarray(tot[ci])
                     scale = 1.0 + np.max(np.abs(ref))
                     if got.shape != ref.shape or not np.allclose(got, ref, rtol=1e-10, atol=1e-12 * scale):
